@@ -93,6 +93,7 @@ type wrAudit struct {
 	MapSize  int        `json:"mapsize"`
 	Status   int        `json:"status"`
 	Wbuf     int        `json:"wbuf"`
+	Rbuf     int        `json:"rbuf"` // entries still held by the read buffer after the final clean-up
 	PubWSize int64      `json:"pubwsize"`
 	PubEst   int        `json:"pubest"`
 	PubMax   int64      `json:"pubmax"`
@@ -185,6 +186,9 @@ func auditCache(c *Cache[int, int], a *wrAudit) {
 	a.Status = int(ci.drainStatus.Load())
 	if ci.writeBuffer != nil {
 		a.Wbuf = int(ci.writeBuffer.Size())
+	}
+	if ci.withMaintenance && ci.readBuffer != nil && !ci.skipReadBuffer() {
+		a.Rbuf = ci.readBuffer.Len()
 	}
 	for _, x := range ids {
 		a.Nodes = append(a.Nodes, *x)
